@@ -292,6 +292,9 @@ pub struct Cfg {
     /// `Age` may also move the identifier counter to `live identifier + d` for these distances
     /// (identifiers that alias a live one modulo a power of two)
     pub age_aliases: Vec<u16>,
+    /// Further absolute identifiers the counter may come round to (also when nothing is in flight), e.g. 1 = the
+    /// counter has wrapped exactly.
+    pub age_targets: Vec<u16>,
     /// after the program the application keeps polling (benign environment) until the handle is dead;
     /// for keep-alive families with a broker that never answers PINGREQ
     pub drain_until_dead: bool,
@@ -359,6 +362,7 @@ impl Cfg {
             preludes: Vec::new(),
             must_reach: Vec::new(),
             age_aliases: Vec::new(),
+            age_targets: Vec::new(),
             drain_until_dead: false,
             disc_illegal: false,
             payload_kinds: vec![0],
